@@ -436,6 +436,14 @@ def install(it):
     M[min] = m_min_max(min)
     M[max] = m_min_max(max)
     M[object.__setattr__] = m_object_setattr
+
+    def m_fromkeys(it_, iterable, value=None):
+        d = {}
+        for k in it_.iterate(iterable):
+            it_.setitem(d, k, value)  # heap objects as keys: hashed and compared through their own __hash__ / __eq__
+        return d
+
+    M[dict.fromkeys] = m_fromkeys
     import operator as op
     import ast
 
